@@ -108,14 +108,15 @@ def range_rule(prog: Program, rep, RID: str, cname: str, mname: str):
     for a in plus:
         need = need + Poly.atom(a)
     r = dominates(hi, need, atoms, plus)
+    ktxt = " + ".join([canonical] + list(plus))
     if r is True:
-        rep.ok(RID, f"{key}:upper-bound", f"exclusive upper bound `{norm(hi)}` >= K+1 with K = {" + ".join([canonical] + list(plus))}+{extra} ({why})",
+        rep.ok(RID, f"{key}:upper-bound", f"exclusive upper bound `{norm(hi)}` >= K+1 with K = {ktxt}+{extra} ({why})",
                f.loc(loop), sample={"loop": norm(it), "K": f"{canonical}+{extra}", "argument": why})
     elif r is False:
-        rep.violation(RID, f"{key}:upper-bound", f"the k-loop's exclusive upper bound `{norm(hi)}` is below K+1 = {" + ".join([canonical] + list(plus))}+{extra + 1}: "
+        rep.violation(RID, f"{key}:upper-bound", f"the k-loop's exclusive upper bound `{norm(hi)}` is below K+1 = {ktxt}+{extra + 1}: "
                       f"an instance whose optimum is K is reported unsolved ({why})", f.loc(loop))
     else:
-        raise AnalysisError(f"{key}: cannot compare upper bound `{norm(hi)}` with {" + ".join([canonical] + list(plus))}+{extra + 1}")
+        raise AnalysisError(f"{key}: cannot compare upper bound `{norm(hi)}` with {ktxt}+{extra + 1}")
 
 
 # ------------------------------------------------------------------------------- width call convention
@@ -358,6 +359,24 @@ def provider_function_rule(prog: Program, rep, RID: str, cname: str, g: FuncInfo
             if numbers is not None:
                 cands = [a.value for a in multi.get(numbers.id, [])] if isinstance(numbers, ast.Name) else [numbers]
                 filtered = bool(cands) and all(comprehension_excludes_ignored(x) for x in cands)
+            # the total: an excess computation that reads a missing flow value as 0 is valid only if every edge has a value
+            sf = prog.cls(cname).methods.get("_get_source_flow")
+            if sf is not None:
+                txt_sf = " ".join(norm(x) for x in sf.node.body)
+                excess_style = "in_edges" in txt_sf and ".get(self.flow_attr, 0)" in txt_sf
+                keyt = f"{cname}.{g.name}:total-needs-all-values"
+                if excess_style:
+                    early = [st_ for st_ in walk_no_nested(g.node) if isinstance(st_, ast.If) and st_.lineno < c.lineno and
+                             any(isinstance(x, ast.Return) and (x.value is None or (isinstance(x.value, ast.Constant) and x.value.value is None)) for x in st_.body)
+                             and "self.flow_attr not in" in norm(st_.test) and "self.G.edges" in norm(st_.test) and "edges_to_ignore" not in norm(st_.test)]
+                    if early:
+                        rep.ok(RID, keyt, "the total source flow (out-flow minus in-flow, missing values read as 0) is used only when every edge has a flow value", g.loc(early[0]))
+                    else:
+                        rep.violation(RID, keyt, f"{cname}._get_source_flow sums out-flow minus in-flow reading a missing flow value as 0, and the min-gen-set bound uses it "
+                                      "although edges without a value can exist (the edges between expanded nodes in node-weighted mode): every node counts as a source, "
+                                      "the total is too large and the bound exceeds the optimum (a(3)->b(3): bound 2, optimum 1)", g.loc(c))
+                else:
+                    rep.ok(RID, keyt, "the total is the out-flow of the source nodes' valued edges", sf.loc())
             key = f"{cname}.{g.name}:ignored-values"
             if guarded or filtered:
                 rep.ok(RID, key, "the generating-set bound is not computed from the flow values of ignored edges "
